@@ -26,6 +26,8 @@ for kind_dir, d in items:
     prop = d.split("-")[0]
     if kind_dir == "seeded" and notes.get(d, {}).get("not_decided"):
         continue
+    if kind_dir == "benign" and d in json.load(open(os.path.join(ROOT, "benign", "KNOWN_FAIL_CLOSED.json"))):
+        continue  # recorded in DESIGN 6.3: these two end fail-closed; they are not benign twins the corpus can demand silence of
     sh(f"git -C {wt} reset -q --hard; git -C {wt} clean -fdq")
     if sh(f"git -C {wt} apply {pd}").returncode != 0:
         skipped.append((d, "patch does not apply")); continue
